@@ -120,6 +120,21 @@ Proof.
   all: try (intros X; apply I; simpl; rewrite E5; simpl; auto; fail).
   all: try (intros X; apply in_map_postw in X; destruct X; discriminate).
   all: try (intros X; pool_inv; bools; cbn; repeat split; auto; now apply Z.eqb_eq).
-  - intros X. exfalso. destruct (lock s) eqn:L; [destruct (AL _ L); congruence | rewrite AT in X; auto].
+  all: try (intros X; exfalso; destruct (lock s) eqn:L; [destruct (AL _ L); congruence | rewrite AT in X; auto]; fail).
+  all: intros X; exfalso; outs; subst; unfold die_effs in X; simpl in X;
+       repeat match type of X with context [if ?b then _ else _] => destruct b end; simpl in X; intuition discriminate.
+Qed.
+
+Definition glive (r : wrec) : bool := is_live (wpcf r).
+
+Lemma nlive_cnt : forall s, nlive s = cnt (fun w => glive (wk s w)) (wids s).
+Proof. reflexivity. Qed.
+
+Lemma W1b_step : forall s l s', TB s -> (lock s = None -> todo s = []) -> ALock s -> WF s -> W1b s ->
+  step s l = Some s' -> W1b s'.
+Proof.
+  intros s l s' (_ & _ & _ & T4 & T5 & ND) AT AL F (I1 & I2) H.
+  step_inv H; hold_facts; cs_facts; unfold W1b; rewrite !nlive_cnt in *; ssimp; ifs; ssimp;
+    try (split; assumption).
   all: show.
 Admitted.
